@@ -72,6 +72,14 @@ def cells(fns: List[str]) -> List[Dict[str, Any]]:
             if f == "pow":
                 C.append({"id": "pow:int_base_exponents", "fn": f, "expr": "(pow(j.nTrk() + 1, 2.0) / 8 + pow(j.hits().Count() + 1, 3) / 16 + pow(j.nTrk() + 1, 2) * 0.5)"})
                 C.append({"id": "pow:large_int_base", "fn": f, "expr": "pow(j.nTrk() * 10000 + 50000, 2)"})
+    # exact IEEE results that only survive if the job is built without value-changing optimisation (the build description is
+    # part of the package: its compiler options are honoured by the harness)
+    C.append({"id": "ieee:sqrt_squared", "fn": "sqrt", "expr": f"(sqrt({POS}) * sqrt({POS}) - {POS})"})
+    C.append({"id": "ieee:exp_log", "fn": "exp", "expr": f"(exp(log({POS})) - {POS})"})
+    C.append({"id": "ieee:no_reassociation", "fn": "fabs", "expr": "((fabs(j.pt()) + 10000000000000000.0) - 10000000000000000.0)"})
+    C.append({"id": "ieee:div_mul", "fn": "fabs", "expr": "(fabs(j.pt()) / 3.0 * 3.0 - fabs(j.pt()))"})
+    C.append({"id": "ieee:signed_zero", "fn": "copysign", "expr": "copysign(1.0, (0.0 - fabs(j.pt())) * 0.0)"})
+    C.append({"id": "ieee:nan_operand", "fn": "fmax", "expr": "(fmax(j.pt(), sqrt(0.0 - fabs(j.pt()) - 1.0)) + fmin(sqrt(0.0 - fabs(j.eta()) - 1.0), j.eta()))"})
     return C
 
 
